@@ -82,6 +82,10 @@ class Leaf(KDDataset):
     def getshape_class(self):
         return (self._n_classes,)
 
+    def getshape_class_coarse(self):
+        # an item whose name contains an underscore (getdim_class_coarse is its alias)
+        return (self._n_classes + 7,)
+
     def __len__(self):
         return self.n
 
